@@ -507,6 +507,13 @@ QUOTA_TEMPLATES = {
     'pulls-distinct': ('$src.distinct().len()', lambda c: 2 * c['q']),
     'pulls-groupBy': ('$src.groupBy($).len()', lambda c: 2 * c['q']),
     'pulls-memorize': ('$src.memorize().len()', lambda c: 2 * c['q']),
+    # an oversize collection that is only ever *inside* something: in the
+    # host's data, or built as a member of a result
+    'nested-in-input': ('$nd', lambda c: _list_size(len(c['nd']['a']))),
+    'nested-in-input-items': ('$nd.items().toList()',
+                              lambda c: _list_size(len(c['nd']['a']))),
+    'nested-groupBy-values': ('range($m).groupBy(1)',
+                              lambda c: _list_size(c['m'])),
     # two dictionaries that each fit; their union does not
     'dict-plus-consumed': ('($hd1 + $hd2).len()',
                            lambda c: sys.getsizeof(dict(
@@ -619,12 +626,14 @@ def check_quota(run, case):
         k += 1
     c['hd1'] = yutils.FrozenDict((i, i) for i in range(k))
     c['hd2'] = yutils.FrozenDict((i, i) for i in range(k, 2 * k))
+    c['nd'] = yutils.FrozenDict({'a': tuple(range(q // 8 + 10)), 'b': 1})
     predicted = predict(c)
     ctx = _quota_ctx().create_child_context()
     ctx['$hd1'] = c['hd1']
     ctx['$hd2'] = c['hd2']
     src = _Counting(max(q // 4, 64))
     ctx['$src'] = src
+    ctx['$nd'] = c['nd']
     for k in ('s', 'n', 'd', 'm'):
         if k in case:
             ctx['$' + k] = case[k]
